@@ -62,7 +62,7 @@ def GenMod (m : Modifier) : CpuModel → Byte → M Byte := fun _ a r =>
 macro "normM" : tactic => `(tactic|
   simp only [ld, st, failM, bind, StateT.bind, get, getThe, MonadStateOf.get, StateT.get,
     set, MonadStateOf.set, StateT.set, modify, modifyGet, MonadStateOf.modifyGet, StateT.modifyGet, pure, StateT.pure,
-    Prog.bind, GenMod, incPC, setPC, setP, setA, setX, setY, setSP, setIf, mkAddr, ite_app, Bool.cond_eq_ite, ite_true, ite_false,
+    Prog.bind, GenMod, getReg, setReg, incPC, setPC, setP, setA, setX, setY, setSP, setIf, mkAddr, ite_app, Bool.cond_eq_ite, ite_true, ite_false,
     reduceIte, Nat.add_zero, Nat.zero_add, StepOutS.eval, shl8_or, Bool.and_eq_true, Bool.or_eq_true, decide_eq_true_eq, bne_iff_ne, beq_iff_eq, ne_eq])
 
 theorem load_congr {α : Type} {a : Addr} {k k' : Byte → Prog α} (h : ∀ b, k b = k' b) :
@@ -170,7 +170,8 @@ macro "codeEq" "[" ts:Lean.Parser.Tactic.simpLemma,* "]" : tactic => `(tactic|
   (funext r; (try simp only [evalS, Impl.handler, $ts,*, codeBridge]);
    unfoldNewGen; genBodies; (try simp only [codeBridge]); unfoldNewGen; genBodies; (try simp only [codeBridge]);
    implDefs; eqM;
-   all_goals (try rfl); all_goals (try (simp only [Generated.consts])); all_goals (try simp_all); all_goals (try omega)))
+   all_goals (try rfl); all_goals (try (simp only [Generated.consts])); all_goals (try simp_all); all_goals (try omega); all_goals (try ac_rfl);
+   all_goals (try (simp only [Nat.add_assoc, Nat.add_comm, Nat.add_left_comm]))))
 
 -- ---------------------------------------------------------------------------------------
 -- helpers: flags and ALU (property C01)
